@@ -65,9 +65,15 @@ pub struct RunOutcome {
     pub index_before: Option<Vec<(Vec<u8>, Vec<u8>)>>,
     pub index_after: Option<Vec<(Vec<u8>, Vec<u8>)>>,
     pub wall: Duration,
+    /// --start of the run (0 if absent)
+    pub start: u64,
 }
 
 impl RunOutcome {
+    /// (start, "Processed blocks up to height N") if the run got that far
+    pub fn reported(&self) -> Option<(u64, u64)> {
+        crate::obs::processed_upto(&self.stdout_str()).map(|e| (self.start, e))
+    }
     pub fn stdout_str(&self) -> String {
         String::from_utf8_lossy(&self.stdout).into_owned()
     }
@@ -299,6 +305,7 @@ pub fn exec_scenario(ctx: &ExecCtx, wd: &Workdir, scn: &Scenario, built: &Built)
             index_before: ix_before,
             index_after: ix_after,
             wall,
+            start: r.start.unwrap_or(0),
         });
     }
     Ok(outcomes)
